@@ -19,6 +19,14 @@ implementation's outputs):
 spai1 (double build) is compared with the exact least-squares model Spai1.v up to 1e-9; spai0 with
 std::complex<double> against the least-squares minimiser (python reference).
 Case ids carry the oracle kind as prefix (fx.., ex.., lu.., tri..), so a replayed case re-runs its oracle.
+
+BLOCK VALUE TYPES (ops "b.<op> <b> ...", harness/drv_relax_block.cpp, ocaml/relax/ops_relax_block.ml): the same
+classes instantiated with value_type = static_matrix<Q,b,b>, rhs_type = static_matrix<Q,b,1>, b = 2, 3, against
+the same extracted models run at the Scalar instance BlockInst.BlockS QcS b.  Block products do not commute, so
+the operand order of every product in the C++ is observable.  Oracles: fixed point, exact solve on block
+tridiagonal / block arrow matrices (A x = rhs checked on the EXPANDED scalar system by the scalar oracle op, and with
+block products), (L U)_ij = a_ij on the pattern with block products, triangular-solve identity with left
+products.  Case ids: bc.., bfx.., bex.., blu0.., bluk.., blup.., btri.. .
 """
 import random
 from fractions import Fraction as F
@@ -26,12 +34,13 @@ from vcheck import fmt_q, fmt_vec, fmt_crs, parse_out_vec, parse_out_crs, split_
 import gen
 from props.common import diff_run, oracle_run
 
-DRIVERS = ["relax"]
+DRIVERS = ["relax", "relax_block"]
 MODEL = "relax"
 TRUSTED_BASE = [
     "harness/drv_relax.cpp reads the private members ilu0/iluk/ilut::ilu and ilup::base through the explicit-instantiation idiom and L/U/D of detail::ilu_solve through the AMGCL_VERIF friend accessor",
     "ocaml/relax/ops_relax.ml (argument plumbing and the OK/FAIL wrappers around Ilu.lu_entry, Crs.mget, Kernels.spmv)",
     "python pattern power for the ilup oracle (tools/props/C06.py: pattern_power) and the ILU(k) level simulation used only to CLASSIFY failures",
+    "block value types: harness/drv_relax_block.cpp (block CRS / block vector parsing and printing, same private-member access), ocaml/relax/ops_relax_block.ml (embedding of static_matrix<Q,b,1> entries as column-0 blocks and of base scalars as c*I, shape check on output, Model_exc singular_block guard around the extracted blk_inverse), python block generators and the expansion of a block system to its scalar system (tools/props/C06.py)",
 ]
 ASSUMPTIONS = [
     "builtin backend instantiated with vq::Q runs the same template code as with double; double/float parameters are dyadic and converted exactly",
@@ -40,6 +49,8 @@ ASSUMPTIONS = [
     "ilut: cases in which the p-largest cut of std::nth_element goes through a tie of magnitudes are skipped (result implementation-defined)",
     "spai1: Householder QR needs a true square root, so spai1.hpp is run in the double build (dyadic, diagonally dominant inputs) and compared with the exact least-squares model (normal equations solved by DenseSolve.dense_solve) up to a relative tolerance 1e-9 -- tested, not an exact tie",
     "gauss_seidel with params.serial = true and ilu_solve with params.serial = true; the level-scheduled variants belong to C09",
+    "block value types: math::inverse(static_matrix) asserts on a singular block (detail::inverse); cases on which the MODEL reports a singular block (Model_exc singular_block, decided by the extracted blk_inverse before the implementation is run) are outside the domain and are not sent to the implementation (counted in the log); generated matrices are block diagonally dominant so this does not normally happen",
+    "block value types: base scalars (damping, eps, norms, Chebyshev coefficients) are embedded as c*I and vector entries as column-0 blocks (BlockInst.v header: checked op by op against the C++); math::norm of a block is the Frobenius norm with the pseudo square root of the exact instance",
 ]
 RULE = ("cases derived from VERIF_SEED by tools/props/C06.py; distinct = distinct case payload; non-trivial = "
         "implementation output contains a non-zero value and is not an exception")
@@ -310,9 +321,338 @@ def derive_oracles(lines, impl):
     return ol, th, case_of
 
 
-def run(ctx, cases_override=None):
-    lines = cases_override or cases(ctx["tier"], ctx["seed"])
+# ------------------------------------------------------------------ block value types (ops "b.*")
+BSTAT = {}
+
+def bl_mul(X, Y):
+    b = len(X); return [[sum(X[i][k] * Y[k][j] for k in range(b)) for j in range(b)] for i in range(b)]
+def bl_matvec(X, v):
+    b = len(X); return [sum(X[i][k] * v[k] for k in range(b)) for i in range(b)]
+def bl_flat(X): return [x for rw in X for x in rw]
+def bl_unflat(v, b): return [list(v[i * b:(i + 1) * b]) for i in range(b)]
+def bl_is_zero(X): return all(x == 0 for rw in X for x in rw)
+
+def fmt_bcrs(n, m, rows):
+    """rows: list of lists of (col, block); block = b x b list of lists"""
+    out = [str(n), str(m)]
+    for rw in rows:
+        out.append(str(len(rw)))
+        for c, B in rw: out += [str(c)] + [fmt_q(x) for x in bl_flat(B)]
+    return " ".join(out)
+def fmt_bvec(v, b):
+    """v: flat list of n*b scalars"""
+    assert len(v) % b == 0
+    return " ".join([str(len(v) // b)] + [fmt_q(x) for x in v])
+def fmt_blocks(bl):
+    return " ".join([str(len(bl))] + [fmt_q(x) for B in bl for x in bl_flat(B)])
+def parse_out_bcrs(s_, b):
+    """'{n m | c:v;v;v;v c:... | ...}' -> (n, m, rows of (col, block))"""
+    s_ = s_.strip(); assert s_[0] == "{" and s_[-1] == "}", s_
+    parts = s_[1:-1].split("|")
+    n, m = [int(x) for x in parts[0].split()]
+    rows = []
+    for p_ in parts[1:]:
+        rw = []
+        for e in p_.split():
+            c, v = e.split(":"); vs = [F(x) for x in v.split(";")]; assert len(vs) == b * b
+            rw.append((int(c), bl_unflat(vs, b)))
+        rows.append(rw)
+    assert len(rows) == n
+    return n, m, rows
+def b_matvec(rows, x, b):
+    """block rows times flat vector"""
+    out = []
+    for rw in rows:
+        acc = [F(0)] * b
+        for c, B in rw:
+            y = bl_matvec(B, x[c * b:(c + 1) * b]); acc = [a + t for a, t in zip(acc, y)]
+        out += acc
+    return out
+def b_expand(rows, b):
+    """the scalar system of a block matrix: scalar row i*b+r lists (c*b+s, B[r][s]) in storage order"""
+    return [[(c * b + s_, B[r_][s_]) for c, B in rw for s_ in range(b)] for rw in rows for r_ in range(b)]
+
+class BToks(Toks):
+    def blk(self, b): return bl_unflat([self.q() for _ in range(b * b)], b)
+    def bcrs(self, b):
+        n, m = self.i(), self.i()
+        return n, m, [[(self.i(), self.blk(b)) for _ in range(self.i())] for _ in range(n)]
+    def bvec(self, b): return [self.q() for _ in range(self.i() * b)]
+    def blocks(self, b): return [self.blk(b) for _ in range(self.i())]
+
+def parse_bcase(line):
+    t = BToks(line); cid = t.s(); op = t.s(); b = t.i()
+    d = dict(id=cid, op=op, b=b); base = op[2:]
+    if base in NPARAM:
+        d["mode"] = t.s(); d["params"] = [t.s() for _ in range(NPARAM[base])]
+        d["A"] = t.bcrs(b); d["rhs"] = t.bvec(b); d["x"] = t.bvec(b)
+    elif base in FPARAM:
+        d["params"] = [t.s() for _ in range(FPARAM[base])]; d["A"] = t.bcrs(b)
+    elif base == "ilu_solve":
+        d["L"] = t.bcrs(b); d["U"] = t.bcrs(b); d["D"] = t.blocks(b); d["x"] = t.bvec(b)
+    return d
+
+def rblock(r, b, kind=None):
+    """a random b x b block; kinds chosen so that generic pairs do NOT commute"""
+    kind = kind or r.choice(["gen", "gen", "gen", "sparse", "upper", "lower", "rot", "perm", "scalar", "diag"])
+    if kind == "gen": return [[gen.rq(r, nz=True) for _ in range(b)] for _ in range(b)]
+    if kind == "sparse": return [[gen.rq(r) if r.random() < 0.6 else F(0) for _ in range(b)] for _ in range(b)]
+    if kind == "upper": return [[gen.rq(r, nz=True) if j >= i else F(0) for j in range(b)] for i in range(b)]
+    if kind == "lower": return [[gen.rq(r, nz=True) if j <= i else F(0) for j in range(b)] for i in range(b)]
+    if kind == "rot":   # skew part + something
+        X = [[F(0)] * b for _ in range(b)]
+        for i in range(b):
+            for j in range(i + 1, b): v = gen.rq(r, nz=True); X[i][j] = v; X[j][i] = -v
+        return X
+    if kind == "perm":
+        pm = list(range(b)); r.shuffle(pm); v = gen.rq(r, nz=True)
+        return [[v if pm[i] == j else F(0) for j in range(b)] for i in range(b)]
+    if kind == "scalar":
+        v = gen.rq(r, nz=True); return [[v if i == j else F(0) for j in range(b)] for i in range(b)]
+    return [[gen.rq(r, nz=True) if i == j else F(0) for j in range(b)] for i in range(b)]
+
+def b_dominate(r, b, rows, strict=True):
+    """replace the diagonal cells of the diagonal blocks so that the EXPANDED matrix is strictly row
+    diagonally dominant (=> every pivot block of every (incomplete) block factorisation is non-singular)"""
+    out = []
+    for i, rw in enumerate(rows):
+        rw = [(c, [list(x) for x in B]) for c, B in rw]
+        dpos = [k for k, (c, _) in enumerate(rw) if c == i]
+        assert dpos
+        k0 = dpos[-1]
+        for r_ in range(b):
+            off = sum(abs(B[r_][s_]) for k, (c, B) in enumerate(rw) for s_ in range(b) if not (k == k0 and s_ == r_))
+            rw[k0][1][r_][r_] = (off + r.choice([F(1, 2), F(1), F(2), F(3)])) * r.choice([1, 1, 1, -1])
+        out.append(rw)
+    return out
+
+def block_matrix_family(r, b, n, fam):
+    """sorted block rows with a full block diagonal, expanded matrix strictly diagonally dominant"""
+    def pat():
+        if fam == "btridiag": return [[j for j in (i - 1, i, i + 1) if 0 <= j < n] for i in range(n)]
+        if fam == "barrow": return [sorted(set([0, i])) if i else list(range(n)) for i in range(n)]
+        if fam == "barrow_last": return [sorted(set([i, n - 1])) if i < n - 1 else list(range(n)) for i in range(n)]
+        if fam == "bdense": return [list(range(n)) for _ in range(n)]
+        if fam == "bupper": return [[j for j in range(i, n) if j == i or r.random() < 0.6] for i in range(n)]
+        if fam == "blower": return [[j for j in range(0, i + 1) if j == i or r.random() < 0.6] for i in range(n)]
+        dens = r.choice([0.2, 0.4, 0.6])
+        if fam == "bsympat":
+            e = set((i, j) for i in range(n) for j in range(i) if r.random() < dens)
+            return [sorted(set([i] + [j for j in range(n) if (i, j) in e or (j, i) in e])) for i in range(n)]
+        return [sorted(set([i] + [j for j in range(n) if r.random() < dens])) for i in range(n)]   # structurally non-symmetric
+    if fam == "bkron":
+        # commuting blocks (scalar M-matrix (x) I_b): the only block family of amgcl's own test-suite
+        rows0 = gen.spd_mmatrix(r, n)
+        return [[(c, [[v if i == j else F(0) for j in range(b)] for i in range(b)]) for c, v in rw] for rw in rows0]
+    rows = [[(c, rblock(r, b)) for c in cs] for cs in pat()]
+    return b_dominate(r, b, rows)
+
+BFAMS = ["btridiag", "btridiag", "barrow", "barrow_last", "bpattern", "bpattern", "bsympat", "bdense", "bupper", "blower", "bkron"]
+
+def noncommuting_fraction(r, mats, b_of):
+    """fraction of non-commuting pairs among sampled pairs of stored blocks of one matrix"""
+    tot = nc = 0; allscal = alldiag = allsym = True
+    for rows, b in zip(mats, b_of):
+        bl = [B for rw in rows for _, B in rw]
+        for B in bl:
+            if any(B[i][j] != 0 for i in range(b) for j in range(b) if i != j): alldiag = False
+            if any(B[i][j] != B[j][i] for i in range(b) for j in range(b)): allsym = False
+            if any(B[i][j] != (B[0][0] if i == j else 0) for i in range(b) for j in range(b)): allscal = False
+        for _ in range(min(12, len(bl) * (len(bl) - 1) // 2)):
+            X, Y = r.sample(bl, 2); tot += 1
+            if bl_mul(X, Y) != bl_mul(Y, X): nc += 1
+    return dict(pairs=tot, noncommuting=nc, all_blocks_scalar=allscal, all_blocks_diagonal=alldiag, all_blocks_symmetric=allsym)
+
+def block_cases(tier, seed):
+    r = random.Random(seed * 1000 + 606)
+    out = []; cnt = [0]; mats = []; bs = []
+    def add(prefix, op, b, payload):
+        out.append("%s%d b.%s %d %s" % (prefix, cnt[0], op, b, payload)); cnt[0] += 1
+    N = 26 if tier == "quick" else 110
+    dnz = [F(1, 2), F(3, 4), F(18, 25), F(5, 4)]
+    for it in range(N):
+        b = 2 if it % 3 else 3
+        n = r.choice([1, 2, 3, 3, 4, 5, 6]) if it % 6 else r.randint(6, 9 if tier == "quick" else 12)
+        fam = BFAMS[it % len(BFAMS)] if it < 2 * len(BFAMS) else r.choice(BFAMS)
+        rows = block_matrix_family(r, b, n, fam)
+        mats.append(rows); bs.append(b)
+        if r.random() < 0.25:
+            # explicit zero blocks / blocks with zero cells off the diagonal
+            rows = [[(c, ([[F(0)] * b for _ in range(b)] if (c != i and r.random() < 0.3) else B)) for c, B in rw] for i, rw in enumerate(rows)]
+        A = fmt_bcrs(n, n, rows)
+        xs = gen.rvec(r, n * b); rhs = gen.rvec(r, n * b); x0 = gen.rvec(r, n * b)
+        fx_rhs = b_matvec(rows, xs, b)
+        V = lambda v: fmt_bvec(v, b)
+        # block pattern closed under elimination (no fill): tridiagonal, arrow pointing to the LAST row/column,
+        # triangular.  ("barrow", head in row/column 0, fills completely: not exact.)
+        exact = fam in ("btridiag", "barrow_last", "bupper", "blower")
+        # point smoothers also on shuffled rows / duplicated off-diagonal blocks
+        rowsv = rows
+        if r.random() < 0.4: rowsv = gen.shuffle_rows(r, rows)
+        if r.random() < 0.25 and n > 1:
+            rowsv = [list(rw) for rw in rowsv]
+            i = r.randrange(n); offs = [c for c, _ in rowsv[i] if c != i]
+            if offs: rowsv[i].insert(r.randrange(len(rowsv[i]) + 1), (r.choice(offs), rblock(r, b)))
+        Av = fmt_bcrs(n, n, rowsv); fx_rhs_v = b_matvec(rowsv, xs, b)
+        cheby_p = lambda: "%d %s %s %d" % (r.choice([1, 2, 3]), fmt_q(r.choice([F(1, 32), F(1, 16), F(1, 4)])),
+                                           fmt_q(r.choice([F(1), F(5, 4), F(9, 8)])), r.choice([0, 1]))
+        point = [("jacobi", lambda: fmt_q(r.choice(DAMP))), ("spai0", lambda: ""), ("gs", lambda: ""), ("cheby", cheby_p)]
+        for op, pf in point:
+            for mode in ("pre", "post", "apply", "asprec"):
+                if op == "cheby" and mode == "asprec" and it % 2: continue
+                add("bc", op, b, " ".join(x for x in [mode, pf(), Av, V(rhs), V(x0)] if x))
+            for mode in ("pre", "post"):
+                add("bfx", op, b, " ".join(x for x in [mode, pf(), Av, V(fx_rhs_v), V(xs)] if x))
+        add("bc", "spai0_m", b, Av); add("bc", "jacobi_dia", b, Av)
+        add("bc", "gersh", b, "0 " + Av); add("bc", "gersh", b, "1 " + Av)
+        ilus = [("ilu0", lambda: fmt_q(r.choice(DAMP))),
+                ("iluk", lambda: "%d %s" % (r.choice([0, 1, 1, 2]), fmt_q(r.choice(DAMP)))),
+                ("ilup", lambda: "%d %s" % (r.choice([0, 1, 1, 2]), fmt_q(r.choice(DAMP)))),
+                ("ilut", lambda: "%s %s %s" % (fmt_q(r.choice([F(1), F(3, 2), F(2), F(n + 1)])),
+                                               fmt_q(r.choice([F(0), F(1, 100), F(1, 8)])), fmt_q(r.choice(DAMP))))]
+        for op, pf in ilus:
+            for mode in ("pre", "post", "apply", "asprec"):
+                add("bc", op, b, " ".join([mode, pf(), A, V(rhs), V(x0)]))
+            add("bfx", op, b, " ".join([r.choice(["pre", "post"]), pf(), A, V(fx_rhs), V(xs)]))
+            # damping != 1 for every ILU variant (damping is the last parameter)
+            add("bc", op, b, " ".join([r.choice(["pre", "post"]), " ".join(pf().split(" ")[:-1] + [fmt_q(r.choice(dnz))]), A, V(rhs), V(x0)]))
+        add("blu0", "ilu0_factors", b, A)
+        for k in (0, 1, n):
+            add("bluk", "iluk_factors", b, "%d %s" % (k, A))
+        for k in (0, 1, 2):
+            add("blup", "ilup_factors", b, "%d %s" % (k, A))
+        add("bc", "ilut_factors", b, "%s %s %s" % (fmt_q(r.choice([F(1), F(2), F(3)])), fmt_q(r.choice([F(0), F(1, 100), F(1, 8)])), A))
+        # exact inverse cases: complete factorisation (iluk with k > n) on every matrix; ilu0 / iluk(any k) / ilup /
+        # ilut(tau = 0, p >= 2) when the block pattern is closed under elimination
+        full = [("iluk", "%d 1" % (n + 1))]
+        if exact:
+            full += [("ilu0", "1"), ("iluk", "%d 1" % r.choice([0, 1, 2])), ("ilup", "%d 1" % r.choice([0, 1, 2])),
+                     ("ilut", "%s 0 1" % fmt_q(r.choice([F(2), F(5, 2), F(n + 1)])))]
+        for op, p_ in full:
+            for mode in ("apply", "asprec", "pre"):
+                add("bex", op, b, " ".join([mode, p_, A, V(rhs), V(x0)]))
+        # the triangular solver alone, on random strict block factors and random (non-singular or not) D blocks
+        Lr = [[(c, rblock(r, b)) for c in range(i) if r.random() < 0.5] for i in range(n)]
+        Ur = [[(c, rblock(r, b)) for c in range(i + 1, n) if r.random() < 0.5] for i in range(n)]
+        Dr = [rblock(r, b, "gen") for _ in range(n)]
+        add("btri", "ilu_solve", b, " ".join([fmt_bcrs(n, n, Lr), fmt_bcrs(n, n, Ur), fmt_blocks(Dr), V(rhs)]))
+    # the 2x2 block witness of the operand order in the ILU(0) multiplier (always present): block tridiagonal,
+    # sub-diagonal block does not commute with the inverse pivot block
+    for b in (2, 3):
+        E = lambda i, j, v=F(1): [[v if (p_, q_) == (i, j) else F(0) for q_ in range(b)] for p_ in range(b)]
+        I = [[F(1) if p_ == q_ else F(0) for q_ in range(b)] for p_ in range(b)]
+        D0 = [[F(4) if p_ == q_ else (F(1) if q_ == p_ + 1 else F(0)) for q_ in range(b)] for p_ in range(b)]
+        W = [[(0, D0), (1, E(0, b - 1))], [(0, E(b - 1, 0, F(2))), (1, [[F(5) * x for x in rw] for rw in I])]]
+        A = fmt_bcrs(2, 2, W); rhs = [F(k + 1) for k in range(2 * b)]; x0 = [F(0)] * (2 * b)
+        add("blu0", "ilu0_factors", b, A)
+        for mode in ("apply", "pre"):
+            add("bex", "ilu0", b, " ".join([mode, "1", A, fmt_bvec(rhs, b), fmt_bvec(x0, b)]))
+    # guard branches: a zero diagonal block (ilu0/ilup: "Zero pivot"; diagonal(): identity), a missing diagonal
+    # block (ilu0/ilup: "No diagonal value"; gauss_seidel: D = identity), only for the classes that test for it
+    for it in range(6 if tier == "quick" else 30):
+        b = r.choice([2, 3]); n = r.choice([2, 3, 4])
+        rows = block_matrix_family(r, b, n, r.choice(["btridiag", "bpattern", "bdense"]))
+        i = r.randrange(n)
+        if it % 2: rows[i] = [(c, ([[F(0)] * b for _ in range(b)] if c == i else B)) for c, B in rows[i]]
+        else: rows[i] = [(c, B) for c, B in rows[i] if c != i]
+        A = fmt_bcrs(n, n, rows); rhs = gen.rvec(r, n * b); x0 = gen.rvec(r, n * b)
+        for op, p_ in (("jacobi", "3/4"), ("gs", ""), ("ilu0", "1"), ("ilup", "1 1")):
+            add("bc", op, b, " ".join(x for x in [r.choice(["pre", "post", "apply"]), p_, A, fmt_bvec(rhs, b), fmt_bvec(x0, b)] if x))
+        add("bc", "jacobi_dia", b, A); add("bc", "ilu0_factors", b, A); add("bc", "ilup_factors", b, "1 " + A)
+    # block arithmetic itself (operator*, math::inverse) -- also tied by C16; cheap sanity for this driver
+    for _ in range(10 if tier == "quick" else 60):
+        b = r.choice([2, 3]); X = rblock(r, b, "gen"); Y = rblock(r, b)
+        add("bc", "mul", b, " ".join(fmt_q(x) for x in bl_flat(X) + bl_flat(Y)))
+        Z = b_dominate(r, b, [[(0, X)]])[0][0][1]
+        add("bc", "inverse", b, " ".join(fmt_q(x) for x in bl_flat(Z)))
+    BSTAT.clear(); BSTAT.update(noncommuting_fraction(r, mats, bs))
+    return out
+
+def block_oracles(lines, impl):
+    ol = []; case_of = {}; th = {}
+    def put(cid, kind, payload, theorem, suffix=""):
+        oid = "o_" + cid + suffix
+        ol.append("%s %s %s" % (oid, kind, payload)); case_of[oid] = cid; th[oid] = theorem
+    for l in lines:
+        cid = l.split(" ", 1)[0]
+        out = impl.get(cid)
+        if out is None or out.startswith(("EXC", "UNSUPPORTED", "CRASH", "BADCRS", "NOFACTORS", "BADMODE")): continue
+        try:
+            if cid.startswith("bfx"):
+                d = parse_bcase(l)
+                put(cid, "o_veq", fmt_vec(d["x"]) + " " + fmt_vec(parse_out_vec(out)),
+                    "block values (b=%d): fixed point: A x* = f => %s.apply_%s(A, f, x*) leaves x* unchanged" % (d["b"], d["op"][2:], d["mode"]))
+            elif cid.startswith("bex"):
+                d = parse_bcase(l); b = d["b"]; n, m, rows = d["A"]; x = parse_out_vec(out)
+                th_ = "block values (b=%d): exact factors fit the block pattern => %s (%s) is an exact solve: A x = rhs" % (b, d["op"][2:], d["mode"])
+                # on the EXPANDED scalar system, by the scalar oracle op (independent of every block-level definition)
+                put(cid, "o_exact_solve", " ".join([fmt_crs(n * b, m * b, b_expand(rows, b)), fmt_vec(d["rhs"]), fmt_vec(x)]), th_ + " (expanded scalar system)")
+                put(cid, "b.o_exact_solve", " ".join([str(b), fmt_bcrs(n, m, rows), fmt_bvec(d["rhs"], b), fmt_bvec(x, b)]), th_ + " (block products)", "_b")
+            elif cid.startswith("blu"):
+                d = parse_bcase(l); b = d["b"]; n, m, rows = d["A"]
+                Ls, Us, Ds = split_top(out)
+                Ln, Lm, Lr = parse_out_bcrs(Ls, b); Un, Um, Ur = parse_out_bcrs(Us, b)
+                Dv = parse_out_vec(Ds); Db = [bl_unflat(Dv[k * b * b:(k + 1) * b * b], b) for k in range(n)]
+                if any(bl_is_zero(B) for B in Db): continue       # breakdown side (iluk/ilut do not test)
+                base = d["op"][2:]
+                if base == "ilu0_factors":
+                    pat = [[c for c, _ in rw] for rw in rows]; what = "pattern(A)"
+                elif base == "ilup_factors":
+                    k = int(d["params"][0]); pat = pattern_power(rows, k); what = "pattern(A^%d)" % (k + 1)
+                else:
+                    pat = [sorted(set([c for c, _ in Lr[i]] + [i] + [c for c, _ in Ur[i]])) for i in range(n)]
+                    what = "the admitted pattern (level of fill <= %s)" % d["params"][0]
+                P = [[(c, F(1)) for c in pr] for pr in pat]
+                put(cid, "b.o_lu_pattern", " ".join([str(b), fmt_bcrs(n, m, rows), fmt_bcrs(Ln, Lm, Lr), fmt_bcrs(Un, Um, Ur), fmt_blocks(Db), fmt_crs(n, m, P)]),
+                    "block values (b=%d): %s: ((I+L)(U+D^-1))_ij = a_ij (block products) on %s" % (b, base.replace("_factors", ""), what))
+            elif cid.startswith("btri"):
+                d = parse_bcase(l); b = d["b"]
+                put(cid, "b.o_triangular", " ".join([str(b), fmt_bcrs(*d["L"]), fmt_bcrs(*d["U"]), fmt_blocks(d["D"]), fmt_bvec(d["x"], b), fmt_bvec(parse_out_vec(out), b)]),
+                    "block values (b=%d): ilu_solve (serial): y + L y = b, x_i = D_i (y_i - (U x)_i), left products" % b)
+        except Exception as e:
+            continue
+    return ol, th, case_of
+
+def block_run(ctx, lines):
+    """block-valued smoothers: drv_relax_block vs the extracted models at BlockS QcS b, plus oracles"""
+    from props.common import account
+    if not lines: return []
     fails = []
+    env = {"OMP_NUM_THREADS": "1"}
+    model = ctx["run_driver"](ctx["model"], lines)
+    # domain: math::inverse(static_matrix) asserts on a singular block
+    dom = [l for l in lines if not (model.get(l.split(" ", 1)[0]) or "").startswith("EXC singular_block")]
+    ctx["log"].append(("C06 block cases outside the domain (singular block: C++ asserts), not run", len(lines) - len(dom)))
+    impl = ctx["run_driver"](ctx["cpp"]["relax_block"], dom, env_extra=env)
+    account(ctx, dom, impl)
+    skipped = 0
+    for l in dom:
+        cid, op = l.split(" ", 2)[:2]
+        a, m_ = impl.get(cid), model.get(cid)
+        if a != m_:
+            if m_ == "EXC TIE" or a == "UNSUPPORTED": skipped += 1; continue
+            ctx["stats"]["mismatches"] += 1
+            fails.append(dict(kind="counterexample", case=l, impl=a, model=m_, op=op, size=len(l), env=env,
+                              theorem="correspondence drv_relax_block (%s, static_matrix<Q,b,b>) vs Relax.v/Ilu.v/Cheby.v at BlockInst.BlockS" % op))
+    ctx["log"].append(("C06 block skipped (ilut tie / unsupported)", skipped))
+    if BSTAT: ctx["log"].append(("C06 block generators: sampled block pairs / non-commuting / all-scalar / all-diagonal / all-symmetric",
+                                 "%(pairs)d / %(noncommuting)d / %(all_blocks_scalar)s / %(all_blocks_diagonal)s / %(all_blocks_symmetric)s" % BSTAT))
+    ol, th, case_of = block_oracles(dom, impl)
+    by_id = {l.split(" ", 1)[0]: l for l in dom}
+    of = oracle_run(ctx, ol, "C06 block oracle", lambda oid: by_id[case_of[oid]])
+    for x in of:
+        oid = x["oracle"]["line"].split(" ", 1)[0]
+        x["theorem"] = th.get(oid, "C06 block oracle")
+    fails += of
+    return fails
+
+
+def run(ctx, cases_override=None):
+    lines = cases_override or (cases(ctx["tier"], ctx["seed"]) + block_cases(ctx["tier"], ctx["seed"]))
+    fails = []
+    blines = [l for l in lines if l.split(" ", 2)[1].startswith("b.")]
+    lines = [l for l in lines if not l.split(" ", 2)[1].startswith("b.")]
+    fails += block_run(ctx, blines)
     zlines = [l for l in lines if l.split(" ", 2)[1] == "spai0_cplx"]
     slines = [l for l in lines if l.split(" ", 2)[1] in ("spai1", "spai1_m")]
     lines = [l for l in lines if l.split(" ", 2)[1] not in ("spai0_cplx", "spai1", "spai1_m")]
